@@ -72,7 +72,7 @@ func caseFields(h *H, r *hlib.Rng, variant string) {
 		if ptn < fork && (m.name == "wh.shaDiffAndCount" || m.name == "wh.scryptDiffAndCount" || m.name == "wh.shaShareTarget" || m.name == "wh.scryptShareTarget" || m.name == "wh.kawpowDifficulty") {
 			continue // these fields do not exist on the wire before the fork
 		}
-		if m.name == "wh.time<sigtime" {
+		if m.name == "wh.time<sigtime" || (s.has && voidFor(m.name, wh0.AuxPow().PowID())) {
 			continue
 		}
 		c := &sealed{wo: types.CopyWorkObject(s.wo), tp: s.tp, has: s.has}
